@@ -417,6 +417,10 @@ func (pe *PolicyEngine) insertWorkload(rs interface{}, kind string) error {
 	var podObj *k8s.Pod
 	for _, podObj = range pods {
 		podStr := types.NamespacedName{Namespace: podObj.Namespace, Name: podObj.Name}
+		if _, exists := pe.podsMap[podStr.String()]; exists {
+			// an existing workload is updated (e.g. its ports): cached results of its owner are not valid anymore
+			pe.cache.clear()
+		}
 		pe.podsMap[podStr.String()] = podObj
 		// update cache with new pod associated to to its owner
 		pe.cache.addPod(podObj, podStr.String())
